@@ -23,6 +23,11 @@ def run(tier, replay=None):
         common.model_checks(v, [("MC_Addr", "MC_Addr.cfg", {"workers": 4}, "pass")])
     summ = common.harness_traces("c15", tier, shards=16 if tier == "thorough" else 8, env={"TZ": "UTC"})
     common.validate(v, "Trace_Pure", "Trace_Pure.cfg", summ, key)
+    if replay is None:
+        # cold pass: four fresh processes, in each the first address ever parsed goes through another role's parser
+        for role in ("bind", "broadcast", "listen", "controller"):
+            cs = common.harness_traces("c15", tier, shards=1, env={"TZ": "UTC"}, extra_args=["-x", "cold=" + role], name="c15-cold-" + role)
+            common.validate(v, "Trace_Pure", "Trace_Pure.cfg", cs, key)
     v.coverage["rule"] = ("4 roles x: every string over {1,0,2,5,.,:} up to length 7 (quick) / 9 (thorough) - those with fewer than three dots summarised per length, the rest judged one by one; "
                           "ports (quick: boundaries + every 97th, thorough: all 2^16) on a fixed address + odd port texts; 2500 / 20000 single-character mutations of valid addresses; 2500 / 10000 format-parse round trips. distinct = (role, text)")
     v.coverage["checker_cmd"] = "tlc MC_Addr; tlc Trace_Pure"
